@@ -934,7 +934,7 @@ fn run_history_inner<KK: KeyKind>(ctx: &mut Ctx, h: &History, opts: &RunOpts) ->
         if let Some(b) = &before {
             if let Ok(true) = guard(|| *b == enr) {
                 ctx.count("c15.evals");
-                if post.pairs != pre.pairs || post.enc != pre.enc || post.hash != pre.hash {
+                if (post.pairs != pre.pairs || post.enc != pre.enc || post.hash != pre.hash) && post.sig.len() >= 16 {
                     ctx.violate("C15", "equal-records-differ-in-content-or-encoding", &format!("before-vs-after/{opn}"), || {
                         format!("{ktn}: after {opn} ({}) the record == its former self but pairs equal {} encoding equal {}", if res.is_ok() { "Ok" } else { "Err" }, post.pairs == pre.pairs, post.enc == pre.enc)
                     }, &replay);
